@@ -188,6 +188,7 @@ func c09(c *core.Check) {
 	c09reserve(c)
 	// template clauses
 	tmplC09(c)
+	c09lengthGuards(c)
 }
 
 func contains(xs []string, s string) bool {
